@@ -40,6 +40,15 @@ THEOREMS = [
     "Typedpy.C13.union_duplicate_collapses",
     "Typedpy.C13.explicit_required_equiv",
     "Typedpy.C13.explicit_required_example",
+    "Typedpy.C13.pipe_literal_equiv",
+    "Typedpy.C13.elabField_meaningX",
+    "Typedpy.C13.elabClass_equivX",
+    "Typedpy.C13.same_observationX",
+    "Typedpy.C13.fieldSame_sameX",
+    "Typedpy.C13.classX_example",
+    "Typedpy.C13.default_none_kw_equiv",
+    "Typedpy.C13.dedup_examples",
+    "Typedpy.C13.coll_of_union_tree",
     "Typedpy.C13.equiv_example",
 ]
 RULE = ("class bodies of 1-3 fields; each field an abstract meaning tree (scalar / constrained field literal / bare or "
@@ -80,9 +89,9 @@ RULE = ("class bodies of 1-3 fields; each field an abstract meaning tree (scalar
         "serialized instances, structure_to_schema. Oracle-only streams also cover date / time types (8 families) and mutable defaults (4 families)")
 ASSUMPTIONS = [
     "vocabulary: int/str/float/bool/Any, list/set/frozenset/deque/single- and two-argument tuple and their typing aliases, dict/Dict/Map, Optional/Union/AnyOf/|, "
-    "constrained Integer/Float/Number/String/Enum literals, Structure classes of a fixed pool; tuples of three or more elements, date/time types (oracle-only stream) are not in the spelling grammar",
-    "defaults are immutable scalar literals (int/str/float/bool), the literal `= None` (validated, but not a default afterwards) and default factories; `default=None` (= no default) and mutable "
-    "defaults (oracle-only stream, open finding) are outside the modelled domain",
+    "constrained Integer/Float/Number/String/Enum literals, Structure classes of a fixed pool, literal alternatives (`X | 529`); tuples of three or more elements, date/time types (oracle-only stream) are not in the spelling grammar",
+    "defaults are immutable scalar literals (int/str/float/bool), the literal `= None` (validated, but not a default afterwards), `default=None` (the keyword's own default: no default) "
+    "and default factories; mutable defaults (oracle-only stream, open finding) are outside the modelled domain",
     "the Structure classes named by spellings live in one helper module (all variants and the value stream share the class objects); field names of a class body are distinct",
     "the class source is executed in a module registered in sys.modules (what the future-annotations eval needs), at module level or inside functions of that module; function-scope modules are real files imported through importlib",
     "Python 3.12 typing semantics (Union flattening / de-duplication, no callable check on arguments)",
